@@ -67,6 +67,7 @@ type State struct {
 	curBlock *ssa.BasicBlock
 	unstable map[string]bool
 	nonnil   map[string]bool
+	guarded  map[string]string // object / cell / map reference term -> lock reference term that must be held
 }
 
 func (s *State) clone() *State {
@@ -95,6 +96,10 @@ func (s *State) clone() *State {
 	}
 	for k := range s.nonnil {
 		n.nonnil[k] = true
+	}
+	n.guarded = make(map[string]string, len(s.guarded))
+	for k, v := range s.guarded {
+		n.guarded[k] = v
 	}
 	for k, v := range s.vals {
 		n.vals[k] = v
@@ -328,6 +333,9 @@ func (fe *FE) load(st *State, loc *Loc) Val {
 	if st.unstable[loc.Base] {
 		fe.noteUnstableRead(st, loc)
 	}
+	if len(loc.Idx) > 0 {
+		fe.guardedAccess(st, loc.Idx[0], "load."+loc.Base, fe.curPos)
+	}
 	get := func(c comp) string {
 		arr := fe.heapTerm(st, loc.Base+c.suffix, arraySort(idxSorts(len(loc.Idx), ""), c.sort))
 		return sel(arr, loc.Idx...)
@@ -335,6 +343,16 @@ func (fe *FE) load(st *State, loc *Loc) Val {
 	if len(comps) == 1 {
 		v := scalar(get(comps[0]), comps[0].sort, loc.T)
 		fe.assumeClosed(st, v)
+		// a map read from a guarded field stays guarded by the same lock
+		if lf := fe.V.guardLockFn[loc.Base]; lf != "" && len(loc.Idx) > 0 && !isFreshRefTerm(loc.Idx[0]) {
+			if _, isMap := loc.T.Underlying().(*types.Map); isMap {
+				fe.globalDecl(lf, fmt.Sprintf("(declare-fun %s (Int) Int)", lf))
+				if st.guarded == nil {
+					st.guarded = map[string]string{}
+				}
+				st.guarded[v.T] = "(" + lf + " " + loc.Idx[0] + ")"
+			}
+		}
 		return v
 	}
 	v := Val{Kind: VSlice, Arr: get(comps[0]), Off: get(comps[1]), Len: get(comps[2]), Cap: get(comps[3]), GoT: loc.T}
@@ -421,6 +439,7 @@ func (fe *FE) store(st *State, loc *Loc, v Val) {
 	fe.loopFrameOb(st, loc.Base, loc.Idx)
 	if len(loc.Idx) > 0 {
 		fe.frameOb(st, loc.Base, loc.Idx[0])
+		fe.guardedAccess(st, loc.Idx[0], "store."+loc.Base, fe.curPos)
 	}
 	put := func(c comp, t string) {
 		name := loc.Base + c.suffix
